@@ -45,6 +45,9 @@ class DslProp(PropBase):
 
     def mk(self, rng, kind, depth):
         gen = GE.ExprGen(rng, rich=True)
+        if kind in ("canon", "canon_eq", "sum_simplify", "sum_safe_simplify") and rng.random() < 0.25:
+            # names of different lengths ("Z10" < "Z2" as strings): alphabetical and natural order differ
+            gen = GE.ExprGen(rng, names=["A", "B", "C", "D", "Z10", "Z2"], rich=True)
         c = {"kind": kind}
         if kind in ("mul", "truediv"):
             c["a"] = GE.to_tree(gen.expr(depth)); c["b"] = GE.to_tree(gen.expr(depth))
